@@ -1178,6 +1178,31 @@ pub mod into_route {
         }))
     }
 
+    // Declared scope of the stand-in parsers of Model/IntoRoute.lean (`Std.cidrInScope`, `timeInScope`, `dateTimeInScope`):
+    // a field whose input strings leave it is reported as "out-of-scope" on both sides (tagged, counted, not invalid).
+    fn has_digit(s: &str) -> bool {
+        s.chars().any(|c| c.is_ascii_digit())
+    }
+
+    fn shape(pat: &str, s: &str) -> bool {
+        let (p, c): (Vec<char>, Vec<char>) = (pat.chars().collect(), s.chars().collect());
+        p.len() == c.len() && p.iter().zip(c.iter()).all(|(p, c)| if *p == 'd' { c.is_ascii_digit() } else { p == c })
+    }
+
+    fn time_in_scope(s: &str) -> bool {
+        shape("dd:dd:dd", s) || !has_digit(s)
+    }
+
+    fn datetime_in_scope(s: &str) -> bool {
+        let plus = shape("dddd-dd-ddTdd:dd:dd+dd:dd", s);
+        let year: u32 = s.chars().take(4).collect::<String>().parse().unwrap_or(0);
+        ((shape("dddd-dd-ddTdd:dd:ddZ", s) || plus || shape("dddd-dd-ddTdd:dd:dd-dd:dd", s)) && (year >= 1971 || (year == 1970 && !plus))) || !has_digit(s)
+    }
+
+    fn bounds_in_scope(v: &Value, f: &dyn Fn(&str) -> bool) -> bool {
+        v.as_array().map_or(true, |a| a.iter().all(|r| r.as_array().map_or(true, |b| b.iter().all(|x| x.as_str().map_or(true, f)))))
+    }
+
     fn sod(s: &StaticOrDynamic) -> Value {
         match s {
             StaticOrDynamic::Static(s) => json!({"static": s}),
@@ -1274,6 +1299,11 @@ pub mod into_route {
             Some(w) => json!(w.weekdays.0.iter().map(|d| d.num_days_from_monday()).collect::<Vec<u32>>()),
         };
         let _ = chrono::Utc::now().year();
+        let ips_ok = get(src, "ips").as_array().map_or(true, |a| a.iter().all(|ip| ip.get("range").and_then(|r| r.as_str()) != Some("any")));
+        let dt_ok = bounds_in_scope(get(src, "datetime"), &datetime_in_scope);
+        let time_ok = bounds_in_scope(get(src, "time"), &time_in_scope);
+        let oos = json!("out-of-scope");
+        let (ips, datetime, time) = (if ips_ok { ips } else { oos.clone() }, if dt_ok { datetime } else { oos.clone() }, if time_ok { time } else { oos.clone() });
         let obs = json!({
             "id": route.id(), "priority": route.priority(), "scheme": route.scheme(), "methods": route.methods(), "exclude": route.exclude_methods(),
             "host": route.host().map(sod), "path": sod(route.path_and_query()), "headers": headers, "ips": ips,
@@ -1291,6 +1321,9 @@ pub mod into_route {
         }
         if !route.headers().is_empty() {
             o.tags.push("ir:headers".into());
+        }
+        if !(ips_ok && dt_ok && time_ok) {
+            o.tags.push("ir:out-of-scope".into());
         }
         o
     }
